@@ -475,5 +475,5 @@ from .. import forms as _forms  # noqa: E402
 
 LAWS.append(
     Law("argument_forms", lambda tier: _forms.forms_case_strategy("C17")(tier), _forms.run_forms("C17"), lambda c: True, lambda c: [c["entry"], f"d{c['d']}"], {"quick": 600, "thorough": 8000},
-        "the same object asked for in several ways (positional / keyword arguments, other representatives of point arguments, int / float / numpy scalars, defaults given explicitly, symmetric argument orders): all forms agree", shard=40, mandatory=("Quadrilateral",))
+        "the same object asked for in several ways (positional / keyword arguments, other representatives of point arguments, int / float / numpy scalars, defaults given explicitly, symmetric argument orders): all forms agree", shard=40, mandatory=("Quadrilateral", "TransformedRegularPolygon"))
 )
